@@ -612,7 +612,7 @@ fn history(acc: &mut Acc, r: &mut Rng, variant: u64, steps: u64) {
 }
 
 pub fn run(ctx: &Ctx) -> (CheckMeta, Acc) {
-    let n = ctx.tier.pick(20, 800);
+    let n = ctx.tier.pick(80, 4000);
     let steps = ctx.tier.pick(60, 120);
     let ph = hash_str("C16");
     let total = run_shards(ctx, 16, |sh, acc| {
